@@ -178,3 +178,23 @@ func lemmaLLDP(l *LLDP) (d *LLDP, n1, n2 int, err error, b1 []byte) {
 	n2, err = d.Write(b1)
 	return
 }
+
+// DHCP: a message with one ordinary option (instance in the option count, everything else symbolic): encode with
+// Read into a buffer of the reported size, decode with Write into a fresh value.
+func lemmaDHCP(d *DHCP, tag byte, data []byte) (r *DHCP, n1, n2 int, err error, b1 []byte) {
+	d.Options = []DHCPOption{DHCPNewOption(tag, data)}
+	b1 = make([]byte, int(d.Len()))
+	n1, _ = d.Read(b1)
+	r = new(DHCP)
+	n2, err = r.Write(b1)
+	return
+}
+
+// DHCP with a pad option in front of an ordinary option: the reported size is the number of bytes written.
+func lemmaDHCPPad(d *DHCP, tag byte, data []byte) (n1, size int, b1 []byte) {
+	d.Options = []DHCPOption{DHCPNewOption(DHCP_OPT_PAD, nil), DHCPNewOption(tag, data)}
+	size = int(d.Len())
+	b1 = make([]byte, 1024)
+	n1, _ = d.Read(b1)
+	return
+}
